@@ -1194,6 +1194,18 @@ impl Model {
                 }
             }
             QueryIntrospectionResult::Unavailable => {
+                // queries made by the very connection that now says "unavailable" may be
+                // dropped without an answer (no statement covers them)
+                let own: Vec<(usize, u32)> = e.waiting.iter().copied().filter(|(w, _)| *w == c).collect();
+                e.waiting.retain(|(w, _)| *w != c);
+                for (w, ws) in own {
+                    out.exp.push(Exp {
+                        conn: w,
+                        alts: vec![QueryIntrospectionReply { serial: ws, result: QueryIntrospectionResult::Unavailable }.into()],
+                        optional: true,
+                    });
+                }
+                let e = self.intro.get_mut(&t).unwrap();
                 e.registrants.remove(&c);
                 self.conns[c].introspection.remove(&t);
                 if e.registrants.is_empty() {
